@@ -532,7 +532,7 @@ func TestC13SwarmCancel(t *testing.T) {
 		case "udp-receive":
 			a, err := udpswarm.New("127.0.0.1:0")
 			if err != nil {
-				t.Fatalf("harness: %v", err)
+				t.Fatalf("%s", ev.Tag(fmt.Sprintf("harness: %v", err)))
 			}
 			b, _ := udpswarm.New("127.0.0.1:0")
 			recv = func(ctx context.Context, fn func(string)) error {
